@@ -150,8 +150,15 @@ def run(ctx):
     # (7) "transmits every queued request and cancellation, then closes": the dispatch never goes idle while one of its two queues may still hold an item it
     # has not been woken for (same exploration as C02 / C03, shared through the cache)
     from .wake import source_jobs, pending_states, source_ok
-    poll_, reach_, wjobs = source_jobs(F, P, ('Q', 'K'))
+    poll_, reach_, wjobs = source_jobs(F, P, ('Q', 'K', 'R'))
     wres = run_jobs(F, wjobs)
+    # (8) "when the peer ends the read side the dispatch stops promptly": the transport's read half is registered on every idle return (also while nothing is in
+    # flight — end-of-stream arrives on it), except in the final drain after the write side closed
+    keys_r = pending_states(wres['R'])
+    badr_ = [k for k in keys_r if not source_ok('R', k)]
+    R.ob('C10.read', ('client dispatch poll', 'transport read registered on every idle return'), not badr_ and len(keys_r) >= 2,
+         'the dispatch returns Pending only with the transport read polled last with Pending (or ended): the peer closing its end is noticed without waiting for other traffic',
+         [poll.loc(poll.d)], 'offending exit states (last outcome, w_wait, drain, at_capacity): %s' % badr_)
     for src, nm in (('Q', 'request queue'), ('K', 'cancellation queue')):
         keys = pending_states(wres[src])
         badk = [k for k in keys if not source_ok(src, k)]
